@@ -305,6 +305,9 @@ def _consume(ctx):
                 return None
             res = Interp(F, b, Oracle(call=call)).run()
             r = sp[0][0] in res.exec_blocks
+            shrink = [(bb_, (callee_of(t_) or "").rsplit("::", 1)[-1]) for bb_, t_ in b.calls() if "BytesMut" in (callee_of(t_) or "") and (callee_of(t_) or "").rsplit("::", 1)[-1] in ("advance", "clear", "truncate", "split_off", "split", "set_len", "resize")]
+            others_run = [nm for bb_, nm in shrink if bb_ in res.exec_blocks]
+            ctx.check(not others_run, "C15.D2", "no-other-consumer:%s" % outcome, site(b), ok="split_to is the only operation that shrinks the read buffer", bad="when parse_resp returns %s the buffer is also shrunk by %s: bytes of an incomplete packet are thrown away and the rest of the stream is misframed" % (outcome, others_run))
             ctx.check(r == (outcome == "ok"), "C15.D2", "consume-only-after-parse:%s" % outcome, site(b, sp[0][0]), ok="buffer %s" % ("consumed" if r else "untouched"),
                       bad="when parse_resp returns %s the buffer is %s" % (outcome, "consumed" if r else "not consumed"))
             if outcome == "ok":
